@@ -771,6 +771,13 @@ def py_round(v, n=None):
 
 def np_floor(v):
     if not is_sym(v):
+        if hasattr(v, "_symarray") and hasattr(v, "e"):
+            return type(v)([np_floor(x) for x in v.e], float)
+        if isinstance(v, numpy.ndarray) and v.dtype == object:
+            from gsv import colsym
+            return colsym.SymArray([np_floor(x) for x in v.reshape(-1)], float)
+        if isinstance(v, Choice):
+            return map_choice(lambda x, _: np_floor(x), v, None)
         return numpy.floor(v)
     t, y = num(v)
     if y is int:
@@ -780,6 +787,13 @@ def np_floor(v):
 
 def np_ceil(v):
     if not is_sym(v):
+        if hasattr(v, "_symarray") and hasattr(v, "e"):
+            return type(v)([np_ceil(x) for x in v.e], float)
+        if isinstance(v, numpy.ndarray) and v.dtype == object:
+            from gsv import colsym
+            return colsym.SymArray([np_ceil(x) for x in v.reshape(-1)], float)
+        if isinstance(v, Choice):
+            return map_choice(lambda x, _: np_ceil(x), v, None)
         return numpy.ceil(v)
     t, y = num(v)
     if y is int:
